@@ -76,10 +76,10 @@ def instances():
             extra = ["blocc/builtin/base64.cpp"] if n.startswith("b64") else []
             out.append(nary(n, c + "Expression", "blocc/builtin/builtin_%s.h" % n, kinds, ["C01", "C02", "C05", "C10" if n in ("str", "num", "isnum", "hex", "raw", "replace", "tokenize", "b64enc", "b64dec", "strpos", "subraw", "hash") else "C03"],
                             tus=B(n) + extra, slen=2, tier="quick" if (n, kinds) in QUICKGEN else "thorough", timeout=600, idsuffix=".g",
-                            unwindset=["_ZN4bloc13HEXExpression3hexB5cxx11Ell.0:20"] if n == "hex" else ["_ZNSt8__detail14__to_chars_lenImEEjT_i.0:22", "_ZNSt8__detail18__to_chars_10_implImEEvPcjT_.0:22"] if n == "str" else [],
+                            unwindset=["_ZN4bloc13HEXExpression3hexB5cxx11Ell.0:20"] if n == "hex" else ["_ZNK4bloc13POWExpression5valueERNS_7ContextE.0:66"] if n == "pow" else ["_ZNSt8__detail14__to_chars_lenImEEjT_i.0:22", "_ZNSt8__detail18__to_chars_10_implImEEvPcjT_.0:22"] if n == "str" else [],
                             short=(n not in ("hex", "str")),
                             known=("verif_known(KF_HEX_WIDTH_OVERFLOW_UB, VX_NARGS > 1 && !A[1].isnull && A[1].i > LONG_MAX - 16)" if n == "hex" else
-                                   "verif_known(KF_POW_BUILTIN_INT_THROUGH_DOUBLE, true)" if (n, kinds) == ("pow", "ii") else "verif_known(KF_GENERIC_BUILTIN_TRIAGE, false)")))
+                                   "verif_known(KF_GENERIC_BUILTIN_TRIAGE, false)")))
     # member methods (receiver = argument 0)
     P09 = ["C09", "C01", "C02", "C05"]
     TSTUBS = FMT_STUBS + CTX_STUBS + CONTAINER_STUBS[3:]          # tables are real here: Collection not cut
